@@ -90,4 +90,4 @@ def nontrivial(case, result):
 
 def prebuild(root):
     """translator: regenerate coq/Generated/DigitGen.v from /repo/src/digit.rs (proved equal to Model/Digit.v in Proofs/DigitTie.v)"""
-    return run_translator(root, "rs2v_digit.py")
+    return run_translator(root, "rs2v_digit.py") or run_translator(root, "rs2v_loops.py")
